@@ -110,15 +110,6 @@ def legal(s):
 # class vocabulary (ASSUMED models of fontTools / ufoLib2 objects as the post-processor uses them)
 
 
-class StaticShim(str):
-    """`self.m(...)` / `cls.m(...)` where m is a staticmethod/classmethod under contract: route the call to
-    the contract WITHOUT the receiver.  (Engine gap, see notes/C11.requests.md R1; being a `str` it is also
-    seen by the loop-effect analysis as the contract key, so callee `modifies` are havocked correctly.)"""
-
-    def __call__(self, ex, st, recv, args, kwargs, node):
-        return ex.call_contract(CONTRACTS[str(self)], list(args), kwargs, st, node)
-
-
 def _set_of_list(v):
     from pyvc.models import seq_to_set
 
@@ -368,8 +359,6 @@ def _bpn_summary(ex, st, self, args, kwargs, node):
     return Val(STR, _prod_fn(lift(self), lift(g)))
 
 
-_STATIC = ("_unique_name", "rename_glyphs", "set_post_table_format")
-
 cls(
     "PostProcessor",
     fields={
@@ -378,7 +367,7 @@ cls(
     },
     derived={"order": _pp_order, "srcnames": _pp_srcnames},
     views={"order": lambda o: list(o.otf.getGlyphOrder()), "srcnames": lambda o: set(o.glyphSet.keys())},
-    methods={**{m: StaticShim(f"{PP}.{m}") for m in _STATIC}, "_build_production_name": _bpn_summary},
+    methods={"_build_production_name": _bpn_summary},
     repo=PP,
     notes="PostProcessor instance: otf, ufo, glyphSet, _postscriptNames; `order` = otf glyph order, `srcnames` = glyphSet keys",
 )
@@ -988,7 +977,6 @@ contract(
     bounded_ensures={"extra-names-in-glyph-order": "implies('post' in otf and otf['post'].formatType == 2.0, otf['post'].extraNames == [g for g in otf.glyphOrder if g not in standardGlyphOrder])"},
     canaries={"unchanged": "otf.glyphOrder == old(otf.glyphOrder)"},
 )
-CLASSES["PostProcessor"].methods["rename_glyphs"] = StaticShim(f"{PP}.rename_glyphs#no-cff")
 
 
 # ---- run-time side for set_post_table_format / rename_glyphs (real TTFont + real post table object) ---------------
@@ -1081,6 +1069,7 @@ contract(
     f"{PP}._rename_glyphs_from_ufo",
     props=["C11"],
     params={"self": Ref("PostProcessor")},
+    calls={f"{PP}.rename_glyphs": f"{PP}.rename_glyphs#no-cff"},
     modifies=["PPFont.glyphOrder"] + _POST_FIELDS,
     requires=[_SELF_NO_CFF, "self.otf.pristine"],
     ensures={
@@ -1204,4 +1193,75 @@ def _pgn_cases(rng, n):
 
 CONTRACTS[f"{PP}.process_glyph_names"].runtime = Runtime(
     _pgn_cases, lambda d: {"self": compiled_font(d), "useProductionNames": d["arg"]}, call=lambda fn, a: fn(a["self"], a["useProductionNames"])
+)
+
+
+# =====================================================================================================
+# Frame variants (all flavours, no precondition): what the glyph-name step may touch.
+# The functional clauses above are proved for fonts without a decompiled CFF table only (the computed-key dict
+# comprehension of rename_glyphs' CFF branch derails the solvers, notes/C11.md).  These variants execute the SAME bodies,
+# CFF branch included, for their safety obligations (no KeyError / IndexError / AttributeError) and their frame: only the
+# glyph order, the post table's name fields and the CFF charset / CharStrings keys are written; the table SET, and
+# everything else reachable from the font, is left alone.  (C12 composes `process` from this: the name step calls none of
+# the CFF libraries and keeps the CFF flavour.)
+_CFF_NAME_FIELDS = ["PPTopDict.charset", "PPCharStrings.charStrings"]
+_RENAME_FRAME = ["PPFont.glyphOrder"] + _POST_FIELDS + _CFF_NAME_FIELDS
+
+contract(
+    f"{PP}.rename_glyphs",
+    name="frame",
+    props=["C11", "C12"],
+    params={"otf": Ref("PPFont"), "rename_map": Dict(STR, STR)},
+    globals={"standardGlyphOrder": _STD_SYM},
+    modifies=_RENAME_FRAME,
+    merge_branches=False,
+    ensures={"tables-kept": "iff('CFF ' in otf, old('CFF ' in otf)) and iff('CFF2' in otf, old('CFF2' in otf)) and iff('post' in otf, old('post' in otf))"},
+    canaries={"unchanged": "otf.glyphOrder == old(otf.glyphOrder)"},
+)
+contract(
+    f"{PP}._rename_glyphs_from_ufo",
+    name="frame",
+    props=["C11", "C12"],
+    params={"self": Ref("PostProcessor")},
+    calls={f"{PP}.rename_glyphs": f"{PP}.rename_glyphs#frame"},
+    modifies=_RENAME_FRAME,
+    ensures={"same-font-object": "self.otf_id == old(self.otf_id)",
+             "tables-kept": "iff('CFF ' in self.otf, old('CFF ' in self.otf)) and iff('CFF2' in self.otf, old('CFF2' in self.otf)) and iff('post' in self.otf, old('post' in self.otf))"},
+    canaries={"nothing-renamed": "self.order == old(self.order)"},
+)
+contract(
+    f"{PP}.process_glyph_names",
+    name="frame",
+    props=["C11", "C12"],
+    params={"self": Ref("PostProcessor"), "useProductionNames": Opt(BOOL)},
+    calls={f"{PP}._rename_glyphs_from_ufo": f"{PP}._rename_glyphs_from_ufo#frame"},
+    modifies=["PostProcessor.otf"] + _RENAME_FRAME,
+    ensures={
+        # whatever the switches say and whatever the flavour: the table set is the one at entry
+        "same-tables": f"iff('CFF ' in self.otf, {_HAS_CFF0}) and iff('post' in self.otf, {_HAS_POST0}) and iff('CFF2' in self.otf, old('CFF2' in self.otf))",
+    },
+    canaries={"never-reloads": "self.otf_id == old(self.otf_id)"},
+)
+
+
+def _frame_cases(rng, n):
+    """really compiled TTF / CFF / CFF2 fonts (all switches), at most a few dozen: compiling is the expensive part"""
+    return _pgn_cases(rng, min(n, 24) if n <= 100 else min(n, 120))
+
+
+def _rg_frame_build(d):
+    pp = compiled_font(d)
+    if d.get("reload", True):
+        from ufo2ft.postProcessor import _reloadFont
+
+        pp.otf = _reloadFont(pp.otf)
+    return pp
+
+
+CONTRACTS[f"{PP}.rename_glyphs#frame"].runtime = Runtime(
+    _frame_cases, lambda d: (lambda pp: {"otf": pp.otf, "rename_map": pp._build_production_names()})(_rg_frame_build(d)),
+)
+CONTRACTS[f"{PP}._rename_glyphs_from_ufo#frame"].runtime = Runtime(_frame_cases, lambda d: {"self": _rg_frame_build(d)}, call=lambda fn, a: fn(a["self"]))
+CONTRACTS[f"{PP}.process_glyph_names#frame"].runtime = Runtime(
+    _frame_cases, lambda d: {"self": compiled_font(d), "useProductionNames": d["arg"]}, call=lambda fn, a: fn(a["self"], a["useProductionNames"])
 )
